@@ -337,9 +337,9 @@ func c03Borrow(r *fw.Run, p *fw.Program) {
 		if dump {
 			c03DumpKeys(sc)
 		}
-		desc := "the raw-bits reader and the peeks move the position by exactly what they hand out: TryBitBufLen(nBits) returns the window [Pos(), Pos()+nBits) and advances by nBits (C02.leaf obligations of TryBitBufLen); every TryPeek* returns with the position it started from (C02.pos obligations): the range TryFieldValue measures around a reader is the bits that reader consumed"
-		r.Import(sc, "C02.leaf", "C03.readers", desc, 20, func(k string) bool { return strings.HasPrefix(k, "TryBitBufLen") })
-		r.Import(sc, "C02.pos", "C03.readers", desc, 20, nil)
+		desc := "the raw-bits reader and the peeks move the position by exactly what they hand out: TryBitBufLen(nBits) returns the window [Pos(), Pos()+nBits) and advances by nBits (C02.leaf obligations of TryBitBufLen); every hand-written leaf reader hands its read calls exactly the bit count it was asked for (C02.leaf :read obligations); every TryPeek* returns with the position it started from (C02.pos obligations): the range TryFieldValue measures around a reader is the bits that reader consumed"
+		r.Import(sc, "C02.leaf", "C03.readers", desc, 35, func(k string) bool { return strings.HasPrefix(k, "TryBitBufLen") || strings.HasSuffix(k, ":read") })
+		r.Import(sc, "C02.pos", "C03.readers", desc, 35, nil)
 	}
 	{
 		sc := r.Scratch()
